@@ -416,3 +416,7 @@ def run(ctx, cfg=CFG):
     r4_fanout(ctx, cfg)
     r5_no_guard_across_await(ctx, cfg)
     r6_batch(ctx, cfg)
+
+
+from .selftest import for_families as _ff  # noqa: E402
+selftest = _ff(['lock', 'loop'])
